@@ -75,6 +75,12 @@ fn gen_observable(rng: &mut Rng) -> Vec<String> {
     stmts.push("def kw14(**kw):\n    return [kw, list(kw.keys()), list(kw.items())]\ndef pos14(*a, z = 1, y = 2, **kw):\n    return (a, z, y, kw)\nemit(kw14(zeta = 1, alpha = 2, mid = 3, beta = 4, omega = 5, aa = 6, ab = 7, ac = 8, ad = 9), pos14(1, 2, q = 1, y = 5, b = 2), kw14(**{\"k2\": 1, \"k1\": 2}))".to_owned());
     stmts.push("emit(\"%r %s %d\" % ([1, \"a\"], {\"b\": (1,)}, 3), \"{z} {a}\".format(a = 1, z = [2]), str(1.5), repr(1e100), 7 // 2, 7 % -3, -7 // 2, 2.5 // 0.5, int(\"0x1f\", 16) if False else 31)".to_owned());
     stmts.push("load(\"lib14\", \"la\", lb_alias = \"lb\", \"lc\", \"ld\")\nemit(la, ld(2))".to_owned());
+    // Record types with the same fields in an order that differs from program to program.
+    {
+        let mut f = vec!["port = int", "host = str", "secure = bool"];
+        rng.shuffle(&mut f);
+        stmts.push(format!("Rp14 = record({})\nrp14 = Rp14(port = 8080, host = \"h\", secure = True)\nemit(rp14.port + 1, rp14.host + \"x\", not rp14.secure, rp14, [getattr(rp14, a) for a in dir(rp14)][:3])", f.join(", ")));
+    }
     // Never called: several ill-typed expressions in one def, bound to different variables, for the
     // static checker (errors are rendered in the order it returns them).
     stmts.push("def tc14(p: int, q: str):\n    v1 = p + \"s\"\n    v2 = len(p)\n    v3 = [1].nope\n    v4 = q * q\n    v5 = p.attr\n    v6 = q.nope2\n    v7 = {\"a\": 1}.missing_method()\n    return [v1, v2, v3, v4, v5, v6, v7]\ndef tc14b(p: list[int]) -> str:\n    w1 = p + 1\n    w2 = p.nope\n    return w1".to_owned());
@@ -124,6 +130,53 @@ fn gen_observable(rng: &mut Rng) -> Vec<String> {
         stmts.push(fails[rng.usize(fails.len())].to_owned());
     }
     stmts
+}
+
+/// Deepest nesting whose comparison a fresh thread of this process accepts (0 = not measured).
+static NEAR_LIMIT_DEPTH: std::sync::atomic::AtomicU64 = std::sync::atomic::AtomicU64::new(0);
+
+/// Measure it on a helper thread (probing leaves that thread's guards in whatever state; the
+/// thread is gone afterwards).
+pub fn measure_near_limit_depth() {
+    let d = std::thread::Builder::new()
+        .stack_size(256 << 20)
+        .spawn(|| {
+            let accepts = |d: u64| -> bool {
+                kit::ctx_reset();
+                let text = format!("def nest(n):\n    z = []\n    for _i in range(n):\n        z = [z]\n    return z\nemit(nest({d}) == nest({d}))\n");
+                // A fresh thread for every probe: a refused probe must not influence the next.
+                std::thread::Builder::new()
+                    .stack_size(256 << 20)
+                    .spawn(move || {
+                        Module::with_temp_heap(|module| {
+                            let mut eval = Evaluator::new(&module);
+                            match kit::parse("probe.star", &text) {
+                                Ok(ast) => eval.eval_module(ast, kit::globals()).is_ok(),
+                                Err(_) => false,
+                            }
+                        })
+                    })
+                    .map(|h| h.join().unwrap_or(false))
+                    .unwrap_or(false)
+            };
+            // Binary search between 16 and 8192.
+            let (mut lo, mut hi) = (16u64, 8192u64);
+            if !accepts(lo) {
+                return 0;
+            }
+            while lo + 1 < hi {
+                let mid = (lo + hi) / 2;
+                if accepts(mid) {
+                    lo = mid;
+                } else {
+                    hi = mid;
+                }
+            }
+            lo
+        })
+        .map(|h| h.join().unwrap_or(0))
+        .unwrap_or(0);
+    NEAR_LIMIT_DEPTH.store(d, std::sync::atomic::Ordering::Relaxed);
 }
 
 /// Evaluate one program and render everything observable about it.
@@ -188,6 +241,22 @@ fn observe_program_inner(idx: usize, text: &str) -> Vec<String> {
         }
     });
     lines.extend(kit::take_transcript());
+    // 1b. What this thread accepts does not depend on what it evaluated before: a comparison of
+    // values nested as deeply as a fresh thread accepts (measured on a helper thread) still works.
+    let d = NEAR_LIMIT_DEPTH.load(std::sync::atomic::Ordering::Relaxed);
+    if d > 0 {
+        kit::ctx_reset();
+        let text = format!("def nest(n):\n    z = []\n    for _i in range(n):\n        z = [z]\n    return z\nemit(nest({d}) == nest({d}), len(json.encode(nest({})))  > 0)\n", d / 2);
+        let ok = Module::with_temp_heap(|module| {
+            let mut eval = Evaluator::new(&module);
+            match kit::parse("near.star", &text) {
+                Ok(ast) => eval.eval_module(ast, kit::globals()).is_ok(),
+                Err(_) => false,
+            }
+        });
+        let _ = kit::take_transcript();
+        lines.push(format!("near-limit-compare depth-accepted-by-a-fresh-thread {}", if ok { "ok" } else { "REFUSED" }));
+    }
     // 2. Static type checker: errors in the order returned, interface by sorted module names.
     if let Ok(ast) = kit::parse(&name, text) {
         let mut top_names: Vec<String> = Vec::new();
@@ -263,10 +332,15 @@ pub fn child_main(case_path: &str, cfg_idx: usize) {
     orng.shuffle(&mut order_idx);
     let warmups = cfg["warmups"].as_u64().unwrap_or(0);
     let thread_mode = cfg["thread"].as_u64().unwrap_or(0);
+    measure_near_limit_depth();
     let work = move || {
         // History noise: unrelated evaluations first (type ids, interner, chunk cache, lazies).
         for w in 0..warmups {
             let _ = observe_program(9000 + w as usize, &format!("Rw = record(a = int)\nEw = enum(\"x\", \"y\")\nw = [Rw(a = {w}), Ew(\"x\"), {{\"k\": [{w}] * {}}}]\nemit(w)\n", 1 + w % 7));
+            // ... and evaluations that end in errors of the kinds that touch thread-local guards.
+            let _ = observe_program(9500 + w as usize, "def nest(n):\n    z = []\n    for _i in range(n):\n        z = [z]\n    return z\nemit(nest(5000) == nest(5000))\n");
+            let _ = observe_program(9600 + w as usize, "cy = [1]\ncy.append(cy)\nemit(json.encode(cy))\n");
+            let _ = observe_program(9700 + w as usize, "Rq = record(secure = bool, port = int, host = str)\nemit(Rq(port = 1, host = \"w\", secure = False).port + 1)\n");
         }
         let out = std::io::stdout();
         for i in order_idx {
